@@ -2,7 +2,10 @@ package main
 
 import (
 	"fmt"
+	"os"
 	"sort"
+	"strings"
+	"sync"
 
 	"github.com/NethermindEth/juno/core"
 	"github.com/NethermindEth/juno/core/felt"
@@ -10,7 +13,7 @@ import (
 	"verifharness/hx"
 )
 
-var debug = false
+var debug = os.Getenv("C02_DEBUG") != ""
 
 func feq(a, b *felt.Felt) bool { return a != nil && b != nil && a.Equal(b) }
 
@@ -99,6 +102,7 @@ func (r *runner) runPlan(seed uint64, plan chainPlan, full bool) {
 	parent := &felt.Zero
 	var allTx []*felt.Felt
 	r.c.Hist[fmt.Sprintf("chain-len:%d", len(plan.Seeds))]++
+	r.or.AskUntil("reset", "end") // model chain states: slot i = the chain before block i (slot 0: empty)
 	for i := range plan.Seeds {
 		i := i
 		ctx := plan.Ctxs[i]
@@ -146,109 +150,223 @@ func (r *runner) runPlan(seed uint64, plan chainPlan, full bool) {
 			names = kept
 			r.c.Hist["not-committed-in-post07-format"] += len(uncommitted)
 		}
-		for fi, fo := range fols {
-			be := backendName(fo.newState)
-			sel := r.selectTampers(names, seed+uint64(i)*7+uint64(fi))
-			if full {
-				sel = names
+		// the extracted accept_ev must accept the valid block (its resulting chain state becomes slot i+1)
+		if vb := mk(); !modelAccept(r.or, network, i, i+1, vb) {
+			r.c.Violation("accept-verdict:reject-vs-accept:valid", fmt.Sprintf("chain %d block %d (%s): the extracted accept rejects the block juno's own Finalise produced roots for: %s",
+				seed, i, ctx.Version, modelExplain(r.or, network, i, vb)), replayCase{ChainSeed: seed, Pos: i, Kind: "valid", Tour: full}, true)
+			return
+		}
+		r.c.Hist["model-verdict:valid:accept"]++
+		// The two followers (one per state backend) are independent nodes: their sweeps run side by side. Everything
+		// they report is queued and replayed in follower order afterwards, so the output does not depend on scheduling.
+		mvs := &verdictTable{m: map[string]*verdictEntry{}}
+		var wg sync.WaitGroup
+		reports := make([][]func(), len(fols))
+		aborted := make([]bool, len(fols))
+		for fi := range fols {
+			fi := fi
+			wg.Add(1)
+			go func() {
+				defer wg.Done()
+				emit := func(f func()) { reports[fi] = append(reports[fi], f) }
+				aborted[fi] = r.sweepFollower(fols, fi, emit, mvs, seed, i, ctx, full, names, valid, mk, f, allTx, addrs, classes)
+			}()
+		}
+		wg.Wait()
+		for fi := range fols {
+			for _, rep := range reports[fi] {
+				rep()
 			}
-			if r.only != nil && (r.only.Kind != "tamper" || r.only.Pos != i || r.only.NewState != fo.newState) {
-				sel = nil
-			}
-			if r.only != nil && r.only.Kind == "tamper" && r.only.Pos == i {
-				sel = []string{r.only.Tamper}
-			}
-			pre := rawDigest(fo.mem)
-			preSnap := readerSnapshot(fo.node, allTx, addrs, classes)
-			for _, name := range sel {
-				for _, rehash := range []bool{false, true} {
-					if rehash && !isRehashable(name) {
-						continue
-					}
-					if r.only != nil && r.only.Kind == "tamper" && (r.only.Tamper != name || r.only.Rehash != rehash) {
-						continue
-					}
-					t := mk()
-					if carvedOut(t, name) {
-						r.c.Hist["carved-out:0.13.2-empty-vs-zero-signature"]++
-						continue
-					}
-					applied := false
-					forEachTamper(t, func(n string, mutate func()) {
-						if n == name && !applied {
-							mutate()
-							applied = true
-						}
-					})
-					key := tamperKind(name)
-					if rehash {
-						mh := askBlock(r.or, t.Block, t.Update.StateDiff)
-						t.Block.Hash, t.Update.BlockHash = &mh.BH, &mh.BH
-						key += "+rehash"
-					}
-					err, pan := store(fo.node, t)
-					rc := replayCase{ChainSeed: seed, Pos: i, Tamper: name, Rehash: rehash, NewState: fo.newState, Kind: "tamper", Tour: full}
-					r.c.Count(fmt.Sprintf("%d/%d/%s/%s/%v", seed, i, be, name, rehash), true)
-					switch {
-					case pan != "":
-						r.c.Violation("tamper-panic:"+be+":"+key, fmt.Sprintf("chain %d block %d tamper %s: panic %s", seed, i, name, pan), rc, false)
-						fols[fi] = r.rebuild(fo, valid)
-						fo = fols[fi]
-					case err == nil:
-						r.c.Violation("tamper-accepted:"+be+":"+key, fmt.Sprintf("chain %d block %d (%s) tamper %s rehash=%v was stored", seed, i, ctx.Version, name, rehash), rc, false)
-						fols[fi] = r.rebuild(fo, valid)
-						fo = fols[fi]
-					default:
-						r.c.Hist["reject:"+errClass(err)]++
-						if rehash && errClass(err) != "root-check" {
-							r.c.Hist["rehash-rejected-elsewhere:"+errClass(err)]++
-						}
-						if d := rawDigest(fo.mem); d != pre {
-							r.c.Violation("reject-not-pure:db:"+be+":"+key, fmt.Sprintf("chain %d block %d tamper %s rejected (%v) but the database changed: %s -> %s", seed, i, name, err, pre, d), rc, false)
-							fols[fi] = r.rebuild(fo, valid)
-							fo = fols[fi]
-						} else if s := readerSnapshot(fo.node, allTx, addrs, classes); s != preSnap {
-							r.c.Violation("reject-not-pure:reader:"+be+":"+key, fmt.Sprintf("chain %d block %d tamper %s rejected (%v) but the Reader snapshot changed", seed, i, name, err), rc, false)
-						}
-					}
-					r.c.Hist["tamper:"+key]++
-				}
-			}
-			// now the valid block
-			vb := mk()
-			err, pan := store(fo.node, vb)
-			r.c.Count(fmt.Sprintf("%d/%d/%s/valid", seed, i, be), true)
-			if err != nil || pan != "" {
-				r.c.Violation("valid-rejected:"+be, fmt.Sprintf("chain %d block %d (%s): model-valid block rejected: %v %s", seed, i, ctx.Version, err, pan),
-					replayCase{ChainSeed: seed, Pos: i, NewState: fo.newState, Kind: "valid"}, false)
-				return
-			}
-			hd, herr := fo.node.BC.HeadsHeader()
-			if herr != nil || !feq(hd.Hash, f.Hash) || !feq(hd.GlobalStateRoot, f.Root) || hd.Number != ctx.Number {
-				r.c.Violation("valid-not-head:"+be, fmt.Sprintf("chain %d block %d: stored but head is %v (%v)", seed, i, hd, herr),
-					replayCase{ChainSeed: seed, Pos: i, NewState: fo.newState, Kind: "valid"}, false)
-				return
-			}
-			// what juno stored for the block is what the model says its commitments are
-			if cm, cerr := fo.node.BC.BlockCommitmentsByNumber(ctx.Number); cerr != nil || !feq(cm.TransactionCommitment, &f.M.TxC) ||
-				!feq(cm.EventCommitment, &f.M.EvC) || !feq(cm.ReceiptCommitment, &f.M.RcC) || cm.StateDiffLength != f.M.SdLen ||
-				(cm.StateDiffCommitment != nil && !feq(cm.StateDiffCommitment, &f.M.SdH)) {
-				r.c.Violation("stored-commitments-differ:"+be, fmt.Sprintf("chain %d block %d (%s): stored %+v (%v), model tx %s ev %s rc %s sd %s len %d",
-					seed, i, ctx.Version, cm, cerr, &f.M.TxC, &f.M.EvC, &f.M.RcC, &f.M.SdH, f.M.SdLen),
-					replayCase{ChainSeed: seed, Pos: i, NewState: fo.newState, Kind: "valid", Tour: full}, false)
-			}
-			r.c.Hist["accepted:"+be]++
+		}
+		if aborted[0] || aborted[1] {
+			return
 		}
 		if len(r.c.Samples) < 4 {
 			r.c.Sample(map[string]any{"chain": seed, "block": i, "version": ctx.Version, "txs": mk().Kinds, "tamperings": len(names), "hash": f.Hash.String()})
 		}
 		if r.only == nil {
-			r.probes(valid, mk, fols)
-			r.uncommittedProbes(valid, mk, fols, uncommitted)
+			r.probes(valid, mk, fols, i)
+			r.uncommittedProbes(valid, mk, fols, uncommitted, i)
 		}
 		valid = append(valid, mk)
 		parent = f.Hash
 	}
+}
+
+// sweepFollower: every selected tampering of block i against follower fi (must be rejected with database and Reader
+// snapshot unchanged, and juno's verdict must equal the extracted accept_ev's), then the valid block (must become
+// the head). Runs in its own goroutine: reports go through emit. Returns true when the chain cannot be continued.
+func (r *runner) sweepFollower(fols []*follower, fi int, emit func(func()), mvs *verdictTable, seed uint64, i int, ctx blockCtx, full bool,
+	names []string, valid []func() *Built, mk func() *Built, f *filled, allTx []*felt.Felt, addrs, classes []felt.Felt) bool {
+	viol := func(class, what string, rc replayCase, noInput bool) {
+		emit(func() { r.c.Violation(class, what, rc, noInput) })
+	}
+	fo := fols[fi]
+	be := backendName(fo.newState)
+	sel := r.selectTampers(names, seed+uint64(i)*7+uint64(fi))
+	if full {
+		sel = names
+	}
+	if r.only != nil && (r.only.Kind != "tamper" || r.only.Pos != i || r.only.NewState != fo.newState) {
+		sel = nil
+	}
+	if r.only != nil && r.only.Kind == "tamper" && r.only.Pos == i {
+		sel = []string{r.only.Tamper}
+	}
+	pre := rawDigest(fo.mem)
+	preSnap := readerSnapshot(fo.node, allTx, addrs, classes)
+	for _, name := range sel {
+		for _, rehash := range []bool{false, true} {
+			if rehash && !isRehashable(name) {
+				continue
+			}
+			if r.only != nil && r.only.Kind == "tamper" && (r.only.Tamper != name || r.only.Rehash != rehash) {
+				continue
+			}
+			t := mk()
+			if carvedOut(t, name) {
+				emit(func() { r.c.Hist["carved-out:0.13.2-empty-vs-zero-signature"]++ })
+				continue
+			}
+			applied := false
+			forEachTamper(t, func(n string, mutate func()) {
+				if n == name && !applied {
+					mutate()
+					applied = true
+				}
+			})
+			if !applied { // (a replay file naming a tampering this block does not have)
+				emit(func() { r.c.Hist["tamper-not-applicable:"+tamperKind(name)]++ })
+				continue
+			}
+			key := tamperKind(name)
+			if rehash {
+				mh := askBlock(r.or, t.Block, t.Update.StateDiff)
+				t.Block.Hash, t.Update.BlockHash = &mh.BH, &mh.BH
+				key += "+rehash"
+			}
+			// accept_ev's verdict on this tampering (one computation for both backends), decided by the oracle
+			// process while juno decides
+			var pending *verdictEntry
+			if representable(t) {
+				pending = mvs.get(key+"@"+name, func() string { return acceptLine(network, i, -1, t) }, r.or)
+			} else {
+				emit(func() { r.c.Hist["model-verdict:not-representable:"+key]++ })
+			}
+			err, pan := store(fo.node, t)
+			mv, haveMV := false, false
+			if pending != nil {
+				<-pending.done
+				mv, haveMV = pending.val, true
+			}
+			rc := replayCase{ChainSeed: seed, Pos: i, Tamper: name, Rehash: rehash, NewState: fo.newState, Kind: "tamper", Tour: full}
+			emit(func() { r.c.Count(fmt.Sprintf("%d/%d/%s/%s/%v", seed, i, be, name, rehash), true) })
+			if haveMV && pan == "" {
+				emit(func() {
+					r.compareVerdict(mv, err == nil, key, fmt.Sprintf("chain %d block %d (%s) tamper %s rehash=%v [%s]", seed, i, ctx.Version, name, rehash, be), i, t, err, rc)
+				})
+			}
+			switch {
+			case pan != "":
+				viol("tamper-panic:"+be+":"+key, fmt.Sprintf("chain %d block %d tamper %s: panic %s", seed, i, name, pan), rc, false)
+				fols[fi] = r.rebuild(fo, valid)
+				fo = fols[fi]
+			case err == nil:
+				viol("tamper-accepted:"+be+":"+key, fmt.Sprintf("chain %d block %d (%s) tamper %s rehash=%v was stored", seed, i, ctx.Version, name, rehash), rc, false)
+				fols[fi] = r.rebuild(fo, valid)
+				fo = fols[fi]
+			default:
+				emit(func() { r.c.Hist["reject:"+errClass(err)]++ })
+				if rehash && errClass(err) != "root-check" {
+					emit(func() { r.c.Hist["rehash-rejected-elsewhere:"+errClass(err)]++ })
+				}
+				if d := rawDigest(fo.mem); d != pre {
+					viol("reject-not-pure:db:"+be+":"+key, fmt.Sprintf("chain %d block %d tamper %s rejected (%v) but the database changed: %s -> %s", seed, i, name, err, pre, d), rc, false)
+					fols[fi] = r.rebuild(fo, valid)
+					fo = fols[fi]
+				} else if s := readerSnapshot(fo.node, allTx, addrs, classes); s != preSnap {
+					viol("reject-not-pure:reader:"+be+":"+key, fmt.Sprintf("chain %d block %d tamper %s rejected (%v) but the Reader snapshot changed", seed, i, name, err), rc, false)
+				}
+			}
+			emit(func() { r.c.Hist["tamper:"+key]++ })
+		}
+	}
+	// now the valid block
+	vb := mk()
+	err, pan := store(fo.node, vb)
+	emit(func() { r.c.Count(fmt.Sprintf("%d/%d/%s/valid", seed, i, be), true) })
+	if err != nil || pan != "" {
+		viol("valid-rejected:"+be, fmt.Sprintf("chain %d block %d (%s): model-valid block rejected: %v %s", seed, i, ctx.Version, err, pan),
+			replayCase{ChainSeed: seed, Pos: i, NewState: fo.newState, Kind: "valid"}, false)
+		return true
+	}
+	hd, herr := fo.node.BC.HeadsHeader()
+	if herr != nil || !feq(hd.Hash, f.Hash) || !feq(hd.GlobalStateRoot, f.Root) || hd.Number != ctx.Number {
+		viol("valid-not-head:"+be, fmt.Sprintf("chain %d block %d: stored but head is %v (%v)", seed, i, hd, herr),
+			replayCase{ChainSeed: seed, Pos: i, NewState: fo.newState, Kind: "valid"}, false)
+		return true
+	}
+	// what juno stored for the block is what the model says its commitments are
+	if cm, cerr := fo.node.BC.BlockCommitmentsByNumber(ctx.Number); cerr != nil || !feq(cm.TransactionCommitment, &f.M.TxC) ||
+		!feq(cm.EventCommitment, &f.M.EvC) || !feq(cm.ReceiptCommitment, &f.M.RcC) || cm.StateDiffLength != f.M.SdLen ||
+		(cm.StateDiffCommitment != nil && !feq(cm.StateDiffCommitment, &f.M.SdH)) {
+		viol("stored-commitments-differ:"+be, fmt.Sprintf("chain %d block %d (%s): stored %+v (%v), model tx %s ev %s rc %s sd %s len %d",
+			seed, i, ctx.Version, cm, cerr, &f.M.TxC, &f.M.EvC, &f.M.RcC, &f.M.SdH, f.M.SdLen),
+			replayCase{ChainSeed: seed, Pos: i, NewState: fo.newState, Kind: "valid", Tour: full}, false)
+	}
+	emit(func() { r.c.Hist["accepted:"+be]++ })
+	return false
+}
+
+// verdictTable: accept_ev's verdict per tampering of one block, computed once (by whichever follower gets there
+// first) in a goroutine of its own, so that the oracle works while juno does.
+type verdictEntry struct {
+	done chan struct{}
+	val  bool
+}
+
+type verdictTable struct {
+	mu sync.Mutex
+	m  map[string]*verdictEntry
+}
+
+func (vt *verdictTable) get(key string, line func() string, or *hx.Oracle) *verdictEntry {
+	vt.mu.Lock()
+	if e, ok := vt.m[key]; ok {
+		vt.mu.Unlock()
+		return e
+	}
+	e := &verdictEntry{done: make(chan struct{})}
+	vt.m[key] = e
+	vt.mu.Unlock()
+	l := line() // rendered now: the block goes to juno next
+	go func() {
+		e.val = verdictOf(converse(or, l))
+		close(e.done)
+	}()
+	return e
+}
+
+// compareVerdict: the verdict of the extracted accept_ev (on the fields juno was given, hash terms evaluated
+// with juno's primitives) against SanityCheckNewHeight + Store's. A tampered block juno stores although the model
+// rejects it is a failing input of the property; a block juno rejects although the model accepts it breaks the
+// correspondence only.
+func (r *runner) compareVerdict(model, juno bool, kind, where string, slot int, b *Built, jerr error, rc replayCase) {
+	r.c.Hist["model-verdict:"+vname(model)+"/juno:"+vname(juno)]++
+	if model == juno {
+		return
+	}
+	if debug {
+		be := where[strings.LastIndex(where, "[")+1:]
+		es := ""
+		if jerr != nil {
+			es = shortErr(jerr)
+		}
+		r.c.Hist["DEBUG-mismatch:"+kind+":"+be+":"+es]++
+	}
+	r.c.Violation("accept-verdict:"+vname(model)+"-vs-"+vname(juno)+":"+kind,
+		fmt.Sprintf("%s: extracted accept_ev says %s (%s), juno says %s (%v)", where, vname(model), modelExplain(r.or, network, slot, b), vname(juno), jerr),
+		rc, !(juno && !model))
 }
 
 func firstField(s string) string {
